@@ -1,4 +1,290 @@
-//! C11, C12 (stub)
+//! C11 (isolation and aliasing of named maps, engine B) and C12 (golden images as start states).
 #![allow(dead_code)]
-use crate::pool::WorkerIo;
-pub fn worker_job(_kind: u8, _payload: &[u8], _io: &mut WorkerIo) -> Vec<u8> { Vec::new() }
+
+use crate::decoder;
+use crate::engine_a::*;
+use crate::engine_b::*;
+use crate::pool::{JobResult, WorkerIo};
+use crate::props_a::{run_closure, Ctx};
+use crate::report::{Replay, Violation};
+use crate::subject::*;
+use crate::util::{fnv64, unhex, Buf, Rd, J};
+use std::collections::{BTreeMap, HashMap};
+
+pub const JOB_G_C11: u8 = 70;
+
+// ---------------------------------------------------------------------------------------------
+// C11
+
+/// like BWorker::run, but also returns for every sequence and every map the projection of the
+/// sequence onto that map together with a digest of the map's files after close
+fn c11_run(bw: &mut BWorker, payload: &[u8], io: &mut WorkerIo) -> Vec<u8> {
+    let mut r = Rd::new(payload);
+    let prefix = r.vec();
+    let only = r.u64();
+    let cfg = bw.cfg.clone();
+    let mut out = BOutcome::default();
+    let free = cfg.depth as usize - prefix.len();
+    let a = cfg.letters.len() as u64;
+    let total = a.pow(free as u32);
+    let mut seq = prefix.clone();
+    seq.resize(cfg.depth as usize, 0);
+    let mut proj = Buf::new();
+    let mut nproj = 0u32;
+    let range = if only == u64::MAX { 0..total } else { only..only + 1 };
+    for idx in range {
+        let mut x = idx;
+        for p in (prefix.len()..cfg.depth as usize).rev() {
+            seq[p] = (x % a) as u8;
+            x /= a;
+        }
+        io.progress(idx);
+        out.sequences += 1;
+        let s = seq.clone();
+        if let Some((pos, msg)) = bw.run_sequence(&s, &mut out, None) {
+            let key = if msg.contains("via") && msg.contains("model") { "alias-or-isolation".to_string() } else { "call".to_string() };
+            out.failure = Some((s, pos, key, msg));
+            break;
+        }
+        for (mi, img) in out.images.iter().enumerate() {
+            if img.is_empty() {
+                continue;
+            }
+            // projection: the letters that update map mi (kind, key, value); handles do not matter
+            let mut p: Vec<u8> = Vec::new();
+            for li in &s {
+                let l = cfg.letters[*li as usize];
+                if l.map as usize == mi && BCfg::is_update(&l) {
+                    p.extend([l.kind, l.key, l.val]);
+                }
+            }
+            proj.u8(mi as u8).bytes(&p).u64(fnv64(img)).u32(img.len() as u32);
+            nproj += 1;
+        }
+    }
+    let mut res = Buf::new();
+    res.bytes(&out.enc()).u32(nproj);
+    res.0.extend_from_slice(&proj.0);
+    res.0
+}
+
+pub fn c11(tier: &str, seed: u64) -> i32 {
+    let mut ctx = Ctx::new("C11", tier, seed, "model_checking");
+    let thorough = ctx.thorough();
+    let mut maps = vec![std_map(KtId::Str, 8, 2, 5, seed, "a"), std_map(KtId::Str, 8, 2, 5, seed, "b"), std_map(KtId::Bytes, 8, 2, 5, seed ^ 9, "c")];
+    // maps a and b share their keys on purpose: the same key in two maps must stay two entries
+    maps[1].keys = maps[0].keys.clone();
+    if thorough {
+        maps.push(std_map(KtId::U64, 16, 2, 8, seed, "d"));
+    }
+    let mut letters = Vec::new();
+    for mi in 0..maps.len() as u8 {
+        for h in 0..5u8 {
+            letters.push(Letter { kind: L_PUT, map: mi, handle: h, key: 0, val: mi % 2 });
+            letters.push(Letter { kind: L_DEL, map: mi, handle: h, key: 0, val: 0 });
+            letters.push(Letter { kind: L_PUT, map: mi, handle: h, key: 1, val: 1 - mi % 2 });
+        }
+    }
+    letters.push(Letter { kind: L_DB_SYNC_ALL, map: 0, handle: 0, key: 0, val: 0 });
+    let cfg = BCfg {
+        prop: "C11".into(),
+        maps,
+        val_lens: vec![7, 90],
+        letters,
+        depth: 3,
+        flags: F_OBSERVE_ALL | F_DECODE_END | F_RETURN_IMAGES,
+        seed,
+        reopen: vec![],
+        other_params: Params { ht: HtP::Buckets(1024), val: BufP::Size(262144), key: BufP::Auto, htx: BufP::Auto },
+    };
+    ctx.pool.reinit(vec![{
+        let mut b = Buf::new();
+        b.u8(JOB_B_CONFIG).bytes(&cfg.enc());
+        b.0
+    }]);
+    let a = cfg.letters.len();
+    // quick: depth 3 (all sequences); thorough: depth 4 over a reduced handle set is too large for
+    // 61 letters, so thorough = depth 3 with 4 maps (61^3) plus depth 4 on 2 maps
+    let mut prefixes: Vec<Vec<u8>> = Vec::new();
+    for x in 0..a {
+        for y in 0..a {
+            prefixes.push(vec![x as u8, y as u8]);
+        }
+    }
+    let t0 = ctx.run.elapsed();
+    let limit = if thorough { 600.0 } else { 45.0 };
+    let mut memo: HashMap<(u8, Vec<u8>), (u64, u32, Vec<u8>)> = HashMap::new();
+    let mut complete = true;
+    let mut sequences = 0u64;
+    let mut calls = 0u64;
+    let mut proj_checked = 0u64;
+    for chunk in prefixes.chunks(ctx.pool.size() * 8) {
+        if ctx.run.elapsed() - t0 > limit {
+            complete = false;
+            break;
+        }
+        let jobs: Vec<Vec<u8>> = chunk
+            .iter()
+            .map(|p| {
+                let mut b = Buf::new();
+                b.u8(JOB_G_C11).bytes(p).u64(u64::MAX);
+                b.0
+            })
+            .collect();
+        let results = ctx.pool.map(&jobs, |i| i);
+        for (i, res) in results.into_iter().enumerate() {
+            match res {
+                JobResult::Done(b) => {
+                    let mut r = Rd::new(&b);
+                    let o = BOutcome::dec(r.bytes());
+                    sequences += o.sequences;
+                    calls += o.calls;
+                    if let Some((seq, pos, key, msg)) = o.failure {
+                        let mut case = Buf::new();
+                        case.bytes(&seq);
+                        let mut story = seq_story(&cfg, &seq, pos);
+                        story.push(format!("observed: {msg}"));
+                        ctx.run.violation(Violation { prop: "C11".into(), key, message: msg, replay: Replay { engine: "B".into(), config: cfg.enc(), case: case.0, story } });
+                    }
+                    let np = r.u32();
+                    for _ in 0..np {
+                        let mi = r.u8();
+                        let p = r.vec();
+                        let dg = r.u64();
+                        let len = r.u32();
+                        proj_checked += 1;
+                        match memo.get(&(mi, p.clone())) {
+                            None => {
+                                memo.insert((mi, p), (dg, len, chunk[i].clone()));
+                            }
+                            Some((d0, l0, first_prefix)) => {
+                                if *d0 != dg || *l0 != len {
+                                    let msg = format!("the files of map {} differ between two histories that contain exactly the same updates of that map (in the same order) and differ only in what happens to the other maps / which handles are used (first seen under prefix {:?}, now under prefix {:?})", cfg.maps[mi as usize].name, first_prefix, chunk[i]);
+                                    let mut case = Buf::new();
+                                    let mut s = chunk[i].clone();
+                                    s.push(0);
+                                    case.bytes(&s);
+                                    ctx.run.violation(Violation { prop: "C11".into(), key: "projection:files-depend-on-other-maps".into(), message: msg.clone(), replay: Replay { engine: "B".into(), config: cfg.enc(), case: case.0, story: vec![msg] } });
+                                }
+                            }
+                        }
+                    }
+                }
+                JobResult::Crashed { how, progress } => {
+                    let msg = format!("sequences under prefix {:?} do not return normally at completion {:?}: {how}", chunk[i], progress);
+                    let mut case = Buf::new();
+                    let mut s = chunk[i].clone();
+                    s.push(progress.unwrap_or(0) as u8);
+                    case.bytes(&s);
+                    ctx.run.violation(Violation { prop: "C11".into(), key: "crash".into(), message: msg.clone(), replay: Replay { engine: "B".into(), config: cfg.enc(), case: case.0, story: vec![msg] } });
+                }
+            }
+        }
+        if !ctx.run.violations.is_empty() {
+            complete = false;
+            break;
+        }
+    }
+    eprintln!("[C11] sequences={sequences} calls={calls} projections={} checked={proj_checked} complete={complete} {:.1}s", memo.len(), ctx.run.elapsed() - t0);
+    ctx.states = sequences;
+    ctx.transitions = calls;
+    if !complete {
+        ctx.all_closed = false;
+    }
+    ctx.run.add("distinct_projections", memo.len() as i64);
+    ctx.run.add("projection_comparisons", proj_checked as i64);
+    ctx.runs.push(J::obj(vec![
+        ("maps", J::Arr(cfg.maps.iter().map(|m| J::s(&format!("{} ({})", m.name, m.kt.name()))).collect())),
+        ("letters", J::Int(a as i64)),
+        ("depth", J::Int(cfg.depth as i64)),
+        ("sequences", J::Int(sequences as i64)),
+        ("calls", J::Int(calls as i64)),
+        ("all_sequences_of_that_depth_run", J::Bool(complete)),
+    ]));
+    for l in cfg.letters.iter().step_by(7) {
+        ctx.run.sample(J::s(&cfg.label(l)));
+    }
+    let rule = "bounded-exhaustive call sequences on live handles (engine B) over several named maps of mixed key types in one directory (maps a and b use the same keys): letters = {put k1, delete k1, put k2} on map i through handle kind h in {first handle, its clone, repeated lookup, lookup through db.clone(), *_with_params(other parameters)} plus db.sync_all; all sequences of the depth. oracle after every call: every live handle of every map answers get of every key and len per that map's own model (aliases see each other at once, other maps unchanged); at the end every map's files decode to its model; projection differential: the files of map j are a function of the subsequence of updates of map j alone - compared byte-digest-wise across all sequences with the same projection. non-trivial = projection comparisons";
+    ctx.finish_model_checking(rule, &["projection_comparisons"])
+}
+
+// ---------------------------------------------------------------------------------------------
+// C12
+
+fn read_expected(dir: &std::path::Path) -> Option<BTreeMap<Vec<u8>, Vec<u8>>> {
+    let txt = std::fs::read_to_string(dir.join("expected.txt")).ok()?;
+    let mut m = BTreeMap::new();
+    for line in txt.lines() {
+        let mut it = line.split(' ');
+        let k = unhex(it.next().unwrap_or(""));
+        let v = unhex(it.next().unwrap_or(""));
+        m.insert(k, v);
+    }
+    Some(m)
+}
+
+pub fn c12(tier: &str, seed: u64) -> i32 {
+    let mut ctx = Ctx::new("C12", tier, seed, "model_checking");
+    let thorough = ctx.thorough();
+    let root = crate::report::verif_root().join("golden");
+    let mut images = 0;
+    for kt in KtId::ALL {
+        for hist in ["inserts", "deletes-overwrites", "large-slots"] {
+            let dir = root.join(kt.name()).join(hist);
+            let label = format!("golden/{}/{}", kt.name(), hist);
+            let (img, expected) = match (Image::read(&dir, MAP_NAME), read_expected(&dir)) {
+                (Ok(i), Some(e)) => (i, e),
+                _ => crate::report::machinery_failure(&format!("golden image {label} is missing")),
+            };
+            images += 1;
+            // the independent decoder must recover the recorded contents (binds the decoder to the
+            // released format and the released format to the documentation)
+            let d = decoder::decode(&img.htx, &img.key, &img.val);
+            if !d.errors.is_empty() || d.contents != expected || d.sig2[0] != kt.signature() {
+                crate::report::machinery_failure(&format!("the independent decoder does not recover {label}: {:?}", d.errors.first()));
+            }
+            // alphabet: two existing keys (one of them in a chain if there is one), one new key
+            let mut existing: Vec<Vec<u8>> = Vec::new();
+            if let Some(k) = d.live.iter().find(|k| k.pos >= 1) {
+                existing.push(k.key.clone());
+            }
+            for k in d.live.iter() {
+                if existing.len() < 2 && !existing.contains(&k.key) && !k.key.is_empty() {
+                    existing.push(k.key.clone());
+                }
+            }
+            let newk = crate::alphabet::keys_in_bucket(kt, d.n, d.live[0].bucket, 1, 9, seed, &expected.keys().cloned().collect::<Vec<_>>());
+            let mut keys = existing.clone();
+            keys.extend(newk);
+            let absent = crate::alphabet::absent_keys(kt, seed, &expected.keys().cloned().collect::<Vec<_>>());
+            let vals: Vec<u32> = if hist == "large-slots" { vec![30, 1000, 2000] } else { vec![0, 30, 200] };
+            let mut cfg = ACfg::new("C12", kt, crate::alphabet::reopen_params(Params::buckets(64)), keys.clone(), absent, vals, seed);
+            cfg.extras = expected.iter().filter(|(k, _)| !keys.contains(k)).map(|(k, v)| (k.clone(), v.clone())).collect();
+            cfg.init_vals = keys.iter().map(|k| expected.get(k).cloned()).collect();
+            cfg.oracles = O_API | O_REOPEN | O_ITER | O_DEC | O_DEC_CONTENTS | O_ALLOC | O_STATS | O_RO;
+            cfg.ro_mode = 1;
+            cfg.clauses = ALL_CLAUSES;
+            // the image's own history may have used more slots of a size than entries are live now
+            let mut per: HashMap<u32, u32> = HashMap::new();
+            for sl in d.keyf.slots.values().chain(d.valf.slots.values()) {
+                *per.entry(sl.size).or_insert(0) += 1;
+            }
+            cfg.slot_slack = per.values().copied().max().unwrap_or(0);
+            let code: Vec<u8> = keys.iter().map(|k| if expected.contains_key(k) { 255 } else { 0 }).collect();
+            let start = Start { label: label.clone(), image: img, code };
+            let (cap, secs) = if thorough { (300_000, 60.0) } else { (4_000, 3.0) };
+            run_closure(&mut ctx, &format!("{label}: opened read-only, then every history over 2 existing keys + 1 new key x {:?}", cfg.vals), &cfg, vec![start], cap, secs);
+        }
+    }
+    ctx.run.add("golden_images", images);
+    // capped runs are expected here (the point is the start state and its neighbourhood)
+    let rule = "golden images written by the pinned release (5 key types x {inserts only; deletes+overwrites with non-empty free lists; large slots with overwrites}) are start states of the image-graph search: (1) the independent decoder, written from the documentation, must recover the recorded contents from the released bytes (header layout, /8 offset encoding, vu64, placement hash); (2) on the start state and every successor the current build must answer get/includes_key/len/is_empty, all iterators, re-open under other parameters and the statistics per the model, leave the files byte-identical under a read-only session, and obey the allocation rule; successors come from every history over two existing keys and one new key, breadth first to closure or the stated cap. non-trivial = states decoded whose contents come from the release-written image";
+    ctx.finish_model_checking(rule, &["decoded_states"])
+}
+
+pub fn worker_job(kind: u8, payload: &[u8], io: &mut WorkerIo) -> Vec<u8> {
+    match kind {
+        JOB_G_C11 => with_bworker(|bw| c11_run(bw, payload, io)),
+        _ => Vec::new(),
+    }
+}
